@@ -68,3 +68,9 @@ def run_statements(con, statements):
   rows = cur.fetchall()
   header = [d[0] for d in cur.description]
   return header, [tuple(normalise_cell(c) for c in r) for r in rows]
+
+
+from type_inference.research import infer   # noqa: E402
+
+DIAGNOSTICS = (parse.ParsingException, rule_translate.RuleCompileException,
+               functors.FunctorError, infer.TypeErrorCaughtException)
